@@ -46,6 +46,10 @@ type Case struct {
 	// prefix child SubScope("gone"), which records once, is closed and has been dropped by a report
 	// pass - the life and death of a neighbour must not change who the two derivations reach
 	Gone int `json:"gone,omitempty"`
+	// the root's own prefix, tags and separator (empty separator: the default ".")
+	RootPrefix pbt.S `json:"rootPrefix,omitempty"`
+	RootTags   []KV  `json:"rootTags,omitempty"`
+	Sep        pbt.S `json:"sep,omitempty"`
 }
 
 func str() *rapid.Generator[pbt.S] {
@@ -146,9 +150,28 @@ func gen(t *rapid.T) Case {
 		}
 		c.Rel = "edit"
 	}
+	if rapid.IntRange(0, 2).Draw(t, "rootcfg?") == 0 {
+		c.RootPrefix = str().Draw(t, "rootPrefix")
+		for i, n := 0, rapid.IntRange(0, 2).Draw(t, "nroottags"); i < n; i++ {
+			c.RootTags = append(c.RootTags, KV{str().Draw(t, "rk"), str().Draw(t, "rv")})
+		}
+		c.Sep = pbt.S(rapid.SampledFrom([]string{"", ".", "_", "::", "-", "+", "a"}).Draw(t, "sep"))
+	}
 	c.A = derive(t, "a", P, E)
 	P2 := append([]pbt.S(nil), P...)
 	E2 := append([]KV(nil), E...)
+	if !twin && c.Rel == "same" && len(P2) >= 2 && rapid.IntRange(0, 2).Draw(t, "resplit?") == 0 {
+		// the same full prefix reached through other SubScope boundaries: two adjacent parts are
+		// asked for in one call, joined by the separator
+		sep := string(c.Sep)
+		if sep == "" {
+			sep = "."
+		}
+		i := rapid.IntRange(0, len(P2)-2).Draw(t, "resplitAt")
+		joined := P2[i] + pbt.S(sep) + P2[i+1]
+		P2 = append(append(append([]pbt.S(nil), P2[:i]...), joined), P2[i+2:]...)
+		c.Edit = "resplit"
+	}
 	if twin {
 		other := pbt.S(rapid.SampledFrom([]string{"\ufffd", "\xfe", "\xc3", "\xff\xff"}).Draw(t, "twinOther"))
 		if twinKey {
@@ -284,6 +307,12 @@ func run(c Case) (pbt.Outcome, error) {
 			return out
 		}
 		c.A, c.B, c.Metric = fixSteps(c.A), fixSteps(c.B), fix(c.Metric)
+		c.RootPrefix, c.Sep = fix(c.RootPrefix), fix(c.Sep)
+		var rt []KV
+		for _, kv := range c.RootTags {
+			rt = append(rt, KV{fix(kv.K), fix(kv.V)})
+		}
+		c.RootTags = rt
 	}
 	var log *rec.Log
 	if c.Cached {
@@ -295,9 +324,17 @@ func run(c Case) (pbt.Outcome, error) {
 		log = r.L
 		opts.Reporter = r
 	}
+	rootTags := map[string]string{}
+	for _, kv := range c.RootTags {
+		rootTags[string(kv.K)] = string(kv.V)
+	}
+	opts.Prefix, opts.Separator = string(c.RootPrefix), string(c.Sep)
+	if len(rootTags) > 0 {
+		opts.Tags = rootTags
+	}
 	root, _ := tally.VerifNewRootScope(opts, 0, c.Shards)
-	mroot := model.NewRoot("", "", nil, nil)
-	all := []scopeInfo{{mroot, []string{model.LibKey("", nil)}}}
+	mroot := model.NewRoot(string(c.RootPrefix), string(c.Sep), rootTags, nil)
+	all := []scopeInfo{{mroot, []string{model.LibKey(mroot.Prefix, mroot.Tags)}}}
 	var scratch map[string]string
 	if c.Scratch {
 		scratch = map[string]string{}
@@ -428,6 +465,9 @@ func run(c Case) (pbt.Outcome, error) {
 	if c.Gone > 0 {
 		out.Classes = append(out.Classes, "neighbour-closed-and-dropped")
 	}
+	if c.RootPrefix != "" || len(c.RootTags) > 0 || c.Sep != "" {
+		out.Classes = append(out.Classes, "root-with-prefix-tags-or-separator")
+	}
 	if sameID {
 		out.Classes = append(out.Classes, "same-identity")
 	} else {
@@ -439,7 +479,7 @@ func run(c Case) (pbt.Outcome, error) {
 func TestScopes(t *testing.T) {
 	pbt.Main(t, pbt.Prop[Case]{
 		ID: "C05", Name: "scopes",
-		Rule: "rapid-generated PAIRS of derivation programs from one root (registry shard count 1..64 via the verif constructor shim; plain/cached): both derived from prefix parts P and effective tags E by permuting and regrouping the assignments into Tagged calls interleaved with the SubScope steps (plus overridden noise assignments, empty and nil maps); relation 'same' keeps (P,E), relation 'edit' applies exactly one edit (change/add/drop a prefix part, key, value or tag, or fold the next pair into a value with the key format's own delimiters). Alphabet rich in ',', '=', '+' and the empty string; in a third of the cases the root has a sanitizer and all inputs are ones it leaves unchanged; in a third, a prefix child of one of A's intermediate scopes recorded, was closed and was dropped by a report pass before the two derivations are made. Oracle: same identity => pointer-equal scopes and metrics (also when asked twice); different identity => different pointers and increments 3/5 arrive only under their own (name,tags). Pairs of different identities whose reference canonical key strings are byte-equal are the recorded delimiter ambiguity: excluded only while listed open. Every generated pair is non-trivial by construction (regrouped or one edit apart). Distinct: FNV-64 of the case JSON.",
+		Rule: "rapid-generated PAIRS of derivation programs from one root (registry shard count 1..64 via the verif constructor shim; plain/cached; in a third of the cases the root has a prefix, tags of its own and a separator from {default, '.', '_', '::', '-', '+', 'a'}): both derived from prefix parts P and effective tags E by permuting and regrouping the assignments into Tagged calls interleaved with the SubScope steps (plus overridden noise assignments, empty and nil maps); relation 'same' keeps (P,E) - or asks for two adjacent prefix parts in ONE SubScope call, joined by the separator -, relation 'edit' applies exactly one edit (change/add/drop a prefix part, key, value or tag, or fold the next pair into a value with the key format's own delimiters). Alphabet rich in ',', '=', '+' and the empty string; in a third of the cases the root has a sanitizer and all inputs are ones it leaves unchanged; in a third, a prefix child of one of A's intermediate scopes recorded, was closed and was dropped by a report pass before the two derivations are made. Oracle: same identity => pointer-equal scopes and metrics (also when asked twice); different identity => different pointers and increments 3/5 arrive only under their own (name,tags). Pairs of different identities whose reference canonical key strings are byte-equal are the recorded delimiter ambiguity: excluded only while listed open. Every generated pair is non-trivial by construction (regrouped or one edit apart). Distinct: FNV-64 of the case JSON.",
 		Gen:  gen, Run: run, HangAfter: 20 * time.Second,
 	})
 }
